@@ -34,7 +34,8 @@ PROP = dict(
           "log2i arguments adjacent to a power of two; random_int ranges wider than one value; random_data sequences of >=3 calls or "
           ">4096 bytes; random_data_sig cases in which at least one signal was delivered; vector pairs that are distinct and non-zero, or (double) equal as values but different in the sign of a zero; "
           "matrices other than the identity. Distinct = distinct case encodings (hash)."),
-    assumptions=["non-negative operands for gcd/reduce_fraction",
+    assumptions=["Vector norm1() / norm2() / norm() are not among the operations the statement names (in /repo norm1() is the plain sum of the components): called under the sanitizers and classified, not judged",
+                 "non-negative operands for gcd/reduce_fraction",
                  "floating-point vectors / matrices: operands contain no NaN (the strict weak order of the property does not cover it) and only values "
                  "whose sums and products are exact in double; results are compared by value (the sign of a zero result is not asserted), two NaN "
                  "results count as equal; == on floating-point components is the IEEE ==", "random_int ranges with hi-lo < 2^63",
